@@ -13,7 +13,7 @@ import (
 func init() {
 	register(Property{ID: "C30", Level: "other", Run: runC30,
 		Technique: "static analysis: who-may-mutate-the-filesystem over the static call closure of recordcleaner.(*Cleaner).run, must-pass-through path conditions and argument binding on processPath / deleteExpiredSegments / deleteEmptyDirs / recordstore.FindSegments / FindAllPathsWithSegments (go/ssa), shared anchoring obligation of Path.Decode",
-		Text:      "Decides: (1) the only filesystem-mutating calls reachable from the cleaner's goroutine are os.Remove(seg.Fpath) in deleteExpiredSegments and os.Remove(dir) under info.IsDir() in deleteEmptyDirs; (2) the removed file is the Fpath of an element of FindSegments(pathConf, pathName, nil, &end) with end = now - pathConf.RecordDeleteAfter of the same pathConf, reached only when FindPathConf(c.PathConfs, pathName) succeeded and RecordDeleteAfter != 0; (3) FindSegments appends a file only if it is not a directory, Path.Decode accepted its name against the format built from that configuration and name, and end == nil or !end.Before(start); it never trims the list when no start filter is given; (4) every path of every configuration is enumerated (fixed: Decode hit; regexp: Decode hit, valid name, regexp match), every enumerated path is processed on every pass with the current time and no result aborts the pass; every listed segment is removed; (5) Decode is anchored (shared with C26). Not decided: os.Remove failures, clock behaviour, value-level time comparison.",
+		Text:      "Decides: (1) the only filesystem-mutating calls reachable from the cleaner's goroutine are os.Remove(seg.Fpath) in deleteExpiredSegments and os.Remove(dir) under info.IsDir() in deleteEmptyDirs; (2) the removed file is the Fpath of an element of FindSegments(pathConf, pathName, nil, &end) with end = now - pathConf.RecordDeleteAfter of the same pathConf, reached only when FindPathConf(c.PathConfs, pathName) succeeded and RecordDeleteAfter != 0; (3) FindSegments appends a file only if it is not a directory, Path.Decode accepted its name against the format built from that configuration and name, and end == nil or !end.Before(start); it never trims the list when no start filter is given; (4) every path of every configuration is enumerated (fixed: Decode hit; regexp: Decode hit, valid name, regexp match), every enumerated path is processed on every pass with the current time and no result aborts the pass; every listed segment is removed; (5) Decode is anchored (shared with C26); (6) every directory walk in the cleaner's closure (path enumeration, segment listing, empty-directory sweep) is complete: its callback returns only nil or the walk's own error - never fs.SkipDir / fs.SkipAll / another error, which would hide the remaining entries of a directory (sibling segments, nested paths) from the cleaner - a sentinel being allowed only in a yes/no probe whose caller recognises it with errors.Is. Not decided: os.Remove failures, clock behaviour, value-level time comparison.",
 		Note:      "trusted: go/ssa, path/filepath.WalkDir, os.Remove (fails on non-empty directories), conf.FindPathConf (C14)"})
 	addMutants(
 		Mutant{"C30", "delete-after-zero-not-skipped", "internal/recordcleaner/cleaner.go",
@@ -34,6 +34,12 @@ func init() {
 			"	err = c.deleteExpiredSegments(now, pathName, pathConf)", "	err = c.deleteExpiredSegments(now, pathConf.Name, pathConf)", "C30.process_path"},
 		Mutant{"C30", "abort-pass-on-error", "internal/recordcleaner/cleaner.go",
 			"		c.processPath(now, pathName) //nolint:errcheck\n", "		if c.processPath(now, pathName) != nil {\n			return\n		}\n", "C30.every_pass"},
+		Mutant{"C30", "enumeration-skips-rest-of-dir", "internal/recordstore/segment.go",
+			"						ret[pa.Path] = struct{}{}\n", "						ret[pa.Path] = struct{}{}\n						return fs.SkipDir\n", "C30.walk_complete"},
+		Mutant{"C30", "listing-stops-at-first-newer-segment", "internal/recordstore/segment.go",
+			"			// gather all segments that start before the end of the playback\n", "			if ok && end != nil && end.Before(pa.Start) {\n				return fs.SkipDir\n			}\n", "C30.walk_complete"},
+		Mutant{"C30", "enumeration-aborts-on-invalid-name", "internal/recordstore/segment.go",
+			"				if err = conf.IsValidPathName(pa.Path); err == nil {\n", "				if err = conf.IsValidPathName(pa.Path); err != nil {\n					return err\n				} else {\n", "C30.walk_complete"},
 		Mutant{"C30", "regexp-paths-unvalidated", "internal/recordstore/segment.go",
 			"if pathConf.Regexp.FindStringSubmatch(pa.Path) != nil {", "if pathConf.Regexp != nil {", "C30.enumerate"},
 	)
@@ -86,6 +92,7 @@ func runC30(c *Ctx) {
 	if p == nil {
 		return
 	}
+	defer dumpObls(c)
 	c.Explain = "C30.remove_sites: E2 over the static call closure of (*Cleaner).run (interface calls: logger only): filesystem mutators are exactly {deleteExpiredSegments: os.Remove, deleteEmptyDirs$1: os.Remove}. " +
 		"C30.dir_remove: that os.Remove acts on the walked entry, after err == nil and IsDir(). " +
 		"C30.expired_only: os.Remove(x.Fpath), x ranging over FindSegments(pathConf, pathName, nil, &end)#0 with end = now.Add(-pathConf.RecordDeleteAfter), after err == nil. " +
@@ -93,7 +100,8 @@ func runC30(c *Ctx) {
 		"C30.find_segments: append only under !IsDir, Decode(recordPath, fpath) true, end == nil or !end.Before(pa.Start); Fpath/Start binding; format builder; no trimming without a start filter. " +
 		"C30.enumerate: FindAllPathsWithSegments covers every configuration; fixed paths by a Decode hit, regexp paths by Decode hit + valid name + regexp match. " +
 		"C30.every_pass: doRun processes every enumerated name with timeNow(), results do not abort the loop, run calls doRun at start and on every tick; every listed segment is removed regardless of earlier results. " +
-		"C30.decode_anchored: the C26 anchoring obligation (look-alike names)."
+		"C30.decode_anchored: the C26 anchoring obligation (look-alike names). " +
+		"C30.walk_complete: for every filepath.WalkDir/Walk call in the closure of (*Cleaner).run, every value its callback returns (through phis) is nil, the callback's err parameter, or - only when the calling function returns a single bool and passes the walk result to errors.Is(result, G) - the module sentinel G; fs.SkipDir/SkipAll or any other error prunes or stops a collecting walk."
 	c.Assume = []string{"os.Remove on a non-empty directory fails without side effect", "conf.FindPathConf resolves the configuration in force for a name (C14)", "filepath.WalkDir visits every entry below the root"}
 
 	run := c.fn(p, "internal/recordcleaner", "Cleaner", "run")
@@ -145,6 +153,9 @@ func runC30(c *Ctx) {
 	c.Check("C30.remove_sites", "cleaner closure contains deleteExpiredSegments and deleteEmptyDirs$1", hasDes && hasDed, p.Pos(run.Pos()), "")
 	c.Floor("C30.remove_sites", nMut, 2)
 	c.Count("closure_functions", len(reach))
+
+	// ---------- (6) the walks are complete (prop_r3_c30.go)
+	c30WalkComplete(c, p, reach)
 
 	// ---------- dir removal
 	for _, i := range callsIn(ded, "os.Remove") {
